@@ -24,9 +24,18 @@ from .types import (
 _current = count()
 
 
-def generate_checking_code(typ):
+def generate_checking_code(typ, with_bound=False):
     if hasattr(typ, "codegen"):
-        return typ.codegen()
+        cg = typ.codegen()
+        if with_bound and isinstance(typ, DependentType) and typ.bound:
+            # The caller has not established that the value is an instance of the bound
+            cg = cg.mangle()
+            bname = f"bound__{next(_current)}"
+            cg = CodeGen(
+                f"isinstance({{arg}}, {{{bname}}}) and ({cg.template})",
+                {**cg.substitutions, bname: typ.bound},
+            )
+        return cg
     else:
         return CodeGen("isinstance({arg}, {this})", this=typ)
 
